@@ -156,6 +156,10 @@ def run(tier, seed):
                 continue
             snaps = [x for x in r['log'] if isinstance(x, dict) and x.get('rot_same')]
             files = [(x['snap'] if x['final_exists'] else None) for x in snaps] + [r['outs'][0]]
+            if snaps and not any(x['final_exists'] for x in snaps):
+                # a writer for which a rotation onto its own name closes nothing (it simply goes on writing) is consistent as long
+                # as what it finally publishes is ONE complete stream with everything written
+                files, parts = [r['outs'][0]], [b''.join(parts)]
             for k, (path, want) in enumerate(zip(files, parts)):
                 same_rot += 1
                 what = 'output closed by rotation %d onto its own name' % k if k < len(parts) - 1 else 'last output'
